@@ -14,10 +14,11 @@
     core/environment/manager.go  CreateEnvironment (DEPLOY, CONFIGURE, teardown on failure) → `createEnvironment`
     core/server.go  ControlEnvironment (gRPC status included)  → `controlRpc`
 
-  `Cfg` has one switch per repair that went into /repo as a `fix:` commit (notes/C02.fix-{1,2,3}.patch):
-  `Cfg.code` (all on) is the code as it is, `Cfg.legacy` (all off) the code as it was before them — the former
-  refutations stay true statements about `Cfg.legacy`. The switches are tied to the source by go/ast facts
-  (Gen/C02Facts.lean, `C02_cfg_is_code`) and by the differential runs. What is still wrong in DEPLOY is modelled as it is.
+  `Cfg` has one switch per repair that went into /repo as a `fix:` commit (notes/C02.fix-{1,2,3,5,6}.patch; fix-4 is
+  `AcqCfg.outcomeCap` in Model/DeployAttempts.lean): `Cfg.code` (all on) is the code as it is, `Cfg.legacy` (all off) the
+  code as it was before them — the former refutations stay true statements about `Cfg.legacy`. The switches are tied to
+  the source by go/ast facts (Gen/C02Facts.lean, `C02_cfg_is_code`) and by the differential runs. What is still wrong in
+  DEPLOY (a non-critical task that does not start; a TASK_RUNNING update that overtakes the roster) is modelled as it is.
 
   Time is logical: a task that does not answer makes `RunCommand` return its time-out error;
   the deploy loop either sees the root status ACTIVE or gives up.
@@ -57,17 +58,21 @@ inductive Launch where
   | nohost    -- no agent satisfies its constraints
   deriving DecidableEq, Repr, Inhabited
 
-/-- The three repaired places (all `true` = the code as it is, all `false` = the code before the `fix:` commits). -/
+/-- The repaired places (all `true` = the code as it is, all `false` = the code before the `fix:` commits). -/
 structure Cfg where
   singleUsesCritical : Bool    -- fix-1: the single-response branch looks at the critical trait too (`isCriticalTarget`)
   emptyIsSuccess : Bool        -- fix-2: a command with no target succeeds; CONFIGURE with no active task does not wait
   keepTransitionError : Bool   -- fix-3: ControlEnvironment reports the transition's error, not GO_ERROR's (`goErr`)
+  deployKeepsNotification : Bool  -- fix-5: DEPLOY's status channel holds one pending notification and the loop reads the
+                                  -- workflow's status itself when woken: "the root is ACTIVE" cannot be missed
+  deployEmptyIsSuccess : Bool  -- fix-6: DEPLOY waits for the root to become ACTIVE only if it asked something to (a task
+                               -- descriptor handed to acquireTasks, a call role set ACTIVE)
   deriving DecidableEq, Repr
 
 /-- The code as it is. -/
-def Cfg.code : Cfg := ⟨true, true, true⟩
-/-- The code as it was before the three `fix:` commits. -/
-def Cfg.legacy : Cfg := ⟨false, false, false⟩
+def Cfg.code : Cfg := ⟨true, true, true, true, true⟩
+/-- The code as it was before the `fix:` commits. -/
+def Cfg.legacy : Cfg := ⟨false, false, false, false, false⟩
 
 structure Task where
   critical : Bool
@@ -205,14 +210,27 @@ def aggregateStatus : List TStatus → TStatus
 def rootStatus (ls : List (Bool × Launch)) (calls : Nat) : TStatus :=
   aggregateStatus (ls.map (fun l => leafStatus l.1 l.2) ++ List.replicate calls .ACTIVE)
 
-/-- WORKFLOW_ACTIVE_LOOP: leave with success when the root status is seen ACTIVE; every other way out
-    (UNDEPLOYABLE notified, root state ERROR notified, deploy_timeout) returns an error.
-    `lost`: status changes reach the loop through a NON-BLOCKING send on an unbuffered channel
-    (ParentAdapter.updateStatus: `select { case ch <- s: default: }`); a notification sent while the loop is not at its
-    receive (between `wf.GetStatus()` and the `select`, or while it handles the previous one) is dropped, and the
-    time-out branch does not look at the status again: the deployment times out although the workflow is ACTIVE. -/
-def deployBody (ls : List (Bool × Launch)) (calls : Nat) (lost : Bool) : BodyRes :=
-  if rootStatus ls calls = .ACTIVE ∧ lost = false then .ok else .error
+/-- The hand-over of "the root is ACTIVE" from ParentAdapter.updateStatus (a NON-BLOCKING send:
+    `select { case ch <- s: default: }`, made after the new status is stored) to WORKFLOW_ACTIVE_LOOP.
+    `notListening`: when the send is made the loop is not at its receive (between `wf.GetStatus()` and the `select`, or
+    handling an earlier notification) and whatever room the channel has is taken by an earlier notification.
+    The code as it is: the channel holds one pending notification and the loop, once woken, reads the workflow's
+    status itself — a send that finds the channel full leaves a notification in it that is taken AFTER the status was
+    stored, so the loop reads ACTIVE whichever notification woke it. Legacy: unbuffered channel, the value sent is the
+    value used: a send that finds no receiver is dropped, and the time-out branch does not act on the status. -/
+def Cfg.deployHears (cfg : Cfg) (notListening : Bool) : Bool := !notListening || cfg.deployKeepsNotification
+
+/-- Something was asked to become active: a task descriptor went to acquireTasks, or a call role was set ACTIVE. Only
+    these ever report a status to the root. -/
+def deployAwaits (ls : List (Bool × Launch)) (calls : Nat) : Bool := !ls.isEmpty || calls != 0
+
+/-- WORKFLOW_ACTIVE_LOOP: entered `if wfStatus != ACTIVE && (len(taskDescriptors) != 0 || len(callHooks) != 0)` (legacy:
+    whenever the status is not ACTIVE — a workflow without a role waited for a status nobody would ever report); left with
+    success when the root status is seen ACTIVE; every other way out (UNDEPLOYABLE seen, root state ERROR notified,
+    deploy_timeout) returns an error. `lost`: see `Cfg.deployHears`. -/
+def deployBody (cfg : Cfg) (ls : List (Bool × Launch)) (calls : Nat) (lost : Bool) : BodyRes :=
+  if cfg.deployEmptyIsSuccess && !deployAwaits ls calls then .ok
+  else if rootStatus ls calls = .ACTIVE ∧ cfg.deployHears lost = true then .ok else .error
 
 /-! ### the API: ControlEnvironment -/
 
@@ -250,7 +268,10 @@ structure Obs where
   after : Option St
   cmd : List Nat
   runningAcked : Bool := false   -- NewEnvironment failed in DEPLOY although every task was running (and the core had
-                                 -- acknowledged every TASK_RUNNING update) well before the deadline
+                                 -- acknowledged every TASK_RUNNING update) well before the deadline, and by the core's
+                                 -- own account (the time-out error lists the roles that are not ACTIVE) some role was
+                                 -- not ACTIVE when it gave up
+  activeUnseen : Bool := false   -- …and by the core's own account EVERY role was ACTIVE when it gave up
   lost : List Nat := []          -- indices of the live tasks whose executor / agent was lost during the request
   att : Option (List (List Nat)) := none   -- NewEnvironment of a scenario with scripted offers rounds: the tasks launched
                                  -- in each deployment attempt of DEPLOY (Model/DeployAttempts.lean)
@@ -294,14 +315,15 @@ def lostIdx (ls : List (Option Loss)) (tasks : List Task) : List Nat := lostFrom
 structure Workflow where
   calls : Nat
   tasks : List (Bool × Launch)      -- (critical, launch outcome)
-  notifyLost : Bool := false        -- the notification "root is ACTIVE" is dropped (see `deployBody`)
+  notifyLost : Bool := false        -- the notification "root is ACTIVE" finds the DEPLOY loop not listening (see
+                                    -- `Cfg.deployHears`; for the code as it is nothing follows from it)
   deriving Repr
 
 /-- `envs.CreateEnvironment` with no hooks: DEPLOY, then CONFIGURE; on failure GO_ERROR + teardown (the
     environment is gone). Returns the observation and, on success, the world to go on with. -/
 def createEnvironment (cfg : Cfg) (wf : Workflow) (outs : List Outcome) : Obs × Option (Env × List Task) :=
   let env0 : Env := {}
-  match deployBody wf.tasks wf.calls wf.notifyLost with
+  match deployBody cfg wf.tasks wf.calls wf.notifyLost with
   | .ok =>
     let d := tryTransition env0 [] .DEPLOY true false
     let tasks : List Task := wf.tasks.map (fun t => { critical := t.1, active := t.2 = .ok })
@@ -313,7 +335,9 @@ def createEnvironment (cfg : Cfg) (wf : Workflow) (outs : List Outcome) : Obs ×
       let c := tryTransition d.1 [] .CONFIGURE true false
       ({ ev := none, rpc := .ok, state := some c.1.st, after := some c.1.st, cmd := cmd }, some (c.1, afterCommand tasks outs))
   | _ => ({ ev := none, rpc := .err, state := none, after := none, cmd := [],
-            runningAcked := (!wf.tasks.isEmpty || wf.calls != 0) && wf.tasks.all (fun t => t.2 = .ok || t.2 = .okEarly) }, none)
+            runningAcked := deployAwaits wf.tasks wf.calls && wf.tasks.all (fun t => t.2 = .ok || t.2 = .okEarly) &&
+              decide (rootStatus wf.tasks wf.calls ≠ .ACTIVE),
+            activeUnseen := decide (rootStatus wf.tasks wf.calls = .ACTIVE) }, none)
 
 def bodyFor (cfg : Cfg) (e : Ev) (ts : List Target) : BodyRes :=
   match e with
